@@ -506,7 +506,7 @@ class Program:
             if isinstance(fn, ast.Name) and fn.id in mod.functions and not node.keywords:
                 h = mod.functions[fn.id]
                 body = [st for st in h.node.body if not (isinstance(st, ast.Expr) and isinstance(st.value, ast.Constant))]
-                if body and isinstance(body[-1], ast.Return) and body[-1].value is not None and len(node.args) == len(h.params):
+                if body and isinstance(body[-1], ast.Return) and body[-1].value is not None and len(node.args) == len(h.params) and not (env is not None and env.get("__calls__")):
                     env2 = dict(zip(h.params, [f(a) for a in node.args]))
                     if env is not None and "__stubs__" in env:
                         env2["__stubs__"] = env["__stubs__"]
